@@ -506,6 +506,7 @@ pub(crate) mod b {
     fn bounded_cellbuffer_bounds() {
         let mut n = 0u64;
         assert!(CellBuffer::new().bounds().is_none() && CellBuffer::from("  \n \n").bounds().is_none(), "empty drawing has no bounds");
+        // the cell at (7,2) holds a double-width character: it also occupies column 8
         let cells = [(0, 0), (3, 1), (1, 4), (7, 2), (2, 2)];
         for subset in 1..32u32 {
             let mut cb = CellBuffer::new();
@@ -513,8 +514,11 @@ pub(crate) mod b {
             let mut ys = vec![];
             for (k, (x, y)) in cells.iter().enumerate() {
                 if subset & (1 << k) != 0 {
-                    cb.insert(Cell::new(*x, *y), 'x');
+                    cb.insert(Cell::new(*x, *y), if *x == 7 { '一' } else { 'x' });
                     xs.push(*x);
+                    if *x == 7 {
+                        xs.push(8);
+                    }
                     ys.push(*y);
                 }
             }
@@ -552,7 +556,7 @@ pub(crate) mod b {
                             cb.remove(c);
                         }
                     }
-                    let max_x = cb.iter().map(|(c, _)| c.x).max().unwrap_or(0);
+                    let max_x = cb.iter().map(|(c, ch)| c.x + if *ch == '一' || *ch == '二' { 1 } else { 0 }).max().unwrap_or(0);
                     let max_y = cb.iter().map(|(c, _)| c.y).max().unwrap_or(0);
                     for scale in [1.0f32, 8.0] {
                         let st = Settings { scale, ..Settings::default() };
@@ -599,9 +603,27 @@ pub(crate) mod b {
             for second in ["", "      z"] {
                 let text = format!("{}\n{}\n", r, second);
                 let cb = CellBuffer::from(text.as_str());
+                // the right-most and bottom-most occupied cell, read off the input itself: a double-width
+                // character occupies two columns
+                let (mut last_col, mut last_row) = (0i32, 0i32);
+                for (y, row) in text.lines().enumerate() {
+                    let mut col = 0i32;
+                    for ch in row.chars() {
+                        let wd = if ch == '一' { 2 } else { 1 };
+                        if ch != ' ' {
+                            last_col = last_col.max(col + wd - 1);
+                            last_row = last_row.max(y as i32);
+                        }
+                        col += wd;
+                    }
+                }
                 for scale in [0.5f32, 8.0, 37.5] {
                     let st = Settings { scale, ..Settings::default() };
                     let (w, h) = cb.get_size(&st);
+                    if (w, h) != (scale * (last_col + 2) as f32, 2.0 * scale * (last_row + 2) as f32) {
+                        println!("BOUNDED-WITNESS {:?} at scale {}: canvas {}x{}, last occupied column {} row {}", text, scale, w, h, last_col, last_row);
+                        panic!("the canvas has one cell of margin");
+                    }
                     let (frags, _) = cb.get_fragment_spans();
                     for f in frags {
                         let (lo, hi) = f.fragment.bounds();
